@@ -437,6 +437,7 @@ func init() {
 			var alpha []Op
 			alpha = append(alpha, Op{Kind: "handle"})
 			alpha = append(alpha, SPAlphabet(2, names, values)...)
+			alpha = append(alpha, Op{Kind: "sp.iterate", A: "", B: "x", N: 0}, Op{Kind: "sp.iterate", A: "n", B: "", N: 1}, Op{Kind: "sp.iterate", A: "", B: "", N: 0})
 			for _, v := range SetterValues["search"] {
 				alpha = append(alpha, Op{Kind: "search", A: v})
 			}
